@@ -1002,7 +1002,9 @@ func c39RunDialogsAPI(c *mon.Ctx, respKind, mode string, list []c39Dlg, limit in
 		return 0, false
 	}
 	raw := tg.NewClient(c39Invoker(srv.handle))
-	b := func() *dialogs.GetDialogsQueryBuilder { return dialogs.NewQueryBuilder(raw).GetDialogs().BatchSize(limit) }
+	b := func() *dialogs.GetDialogsQueryBuilder {
+		return dialogs.NewQueryBuilder(raw).GetDialogs().BatchSize(limit)
+	}
 	foreign := false
 	api := c39API{
 		iter: func() (c39Iter, func() (int64, bool)) {
